@@ -235,13 +235,13 @@ func (el *eventloop) open(c *conn) error {
 	out, action := el.eventHandler.OnOpen(c)
 	if out != nil {
 		if err := c.open(out); err != nil {
-			return err
+			return el.close(c, os.NewSyscallError("write", err))
 		}
 	}
 
 	if !c.outboundBuffer.IsEmpty() && !el.engine.opts.EdgeTriggeredIO {
 		if err := el.poller.ModReadWrite(&c.pollAttachment, false); err != nil {
-			return err
+			return el.close(c, err)
 		}
 	}
 
@@ -349,7 +349,10 @@ loop:
 	// All data have been sent, it's no need to monitor the writable events for LT mode,
 	// remove the writable event from poller to help the future event-loops if necessary.
 	if !isET && c.outboundBuffer.IsEmpty() {
-		return el.poller.ModRead(&c.pollAttachment, false)
+		if err = el.poller.ModRead(&c.pollAttachment, false); err != nil {
+			return el.close(c, err)
+		}
+		return nil
 	}
 
 	// To prevent infinite writing in ET mode and starving other events,
